@@ -67,6 +67,18 @@ class Pat:
         self.src = src
         import textwrap
         tree = ast.parse(textwrap.dedent(_prep(src)).strip() + "\n")
+        # patterns are brought to the same canonical form as the analysed source (return temps inlined, if/else
+        # orientation) so that either spelling of a pattern matches
+        import os
+        if not os.environ.get("VERIF_NOCANON") and not (len(tree.body) == 1 and isinstance(tree.body[0], ast.Expr)):
+            from .canon import canonical
+            wrapper = ast.Module(body=[ast.FunctionDef(name="_pat", args=ast.arguments(posonlyargs=[], args=[], kwonlyargs=[], kw_defaults=[], defaults=[]),
+                                                       body=tree.body, decorator_list=[], type_params=[])], type_ignores=[])
+            ast.fix_missing_locations(wrapper)
+            try:
+                tree = ast.Module(body=canonical(wrapper).body[0].body, type_ignores=[])
+            except Exception:
+                pass
         self.stmts = tree.body
         self.is_expr = len(self.stmts) == 1 and isinstance(self.stmts[0], ast.Expr) and not _is_ellipsis_stmt(self.stmts[0])
         self.expr = self.stmts[0].value if self.is_expr else None
